@@ -40,6 +40,18 @@ Record flags : Set := mkFlags {
 (* HedSchema.can_save *)
 Definition can_save (library : str) : bool := negb (nonempty library) || negb (memb ch_comma library).
 
+(* base2schema.SchemaLoader.__init__, the branch that loads a further library file INTO an existing
+   with-standard schema (load_schema_version of several versions, load_schema(file, schema=other)): the
+   header attribute library becomes  old + ',' + new  -- the name is listed again also when both files
+   belong to the SAME library; can_save recognises a multi-library merge by exactly this comma.
+   [dedupe] = true is NOT the code: the variant that does not repeat a name already listed. *)
+Definition merge_library (dedupe : bool) (old new : str) : str :=
+  if dedupe && existsb (str_eqb new) (split_on ch_comma old) then old
+  else old ++ ch_comma :: new.
+
+Definition merged_library (dedupe : bool) (first : str) (more : list str) : str :=
+  fold_left (merge_library dedupe) more first.
+
 (* the flag computation at the head of process_schema *)
 Definition compute_flags (with_standard : str) (save_merged : bool) : flags :=
   if nonempty with_standard then
@@ -133,3 +145,31 @@ Definition process_schema (library with_standard : str) (save_merged : bool)
     let f := compute_flags with_standard save_merged in
     Ok (mkOut (output_tags f tags) (output_units f unit_classes)
               (map (output_section f) sections)).
+
+(* SchemaLoaderWiki._read_schema, the parent bookkeeping: the reader rebuilds the long name of every tag
+   from the ORDER and LEVEL of the lines.  [parent_tags] is the name of the previous tag; a line of level
+   lvl (0 = a root line) keeps the first lvl terms and appends its own short name; a level that skips a
+   generation is an error (WIKI_LINE_START_INVALID, surfacing as HedFileError).  Rooted/level_adj handling of
+   unmerged files is not part of this model. *)
+Fixpoint rebuild_names (parent_tags : tname) (lines : list (nat * nat)) : res (list tname) :=
+  match lines with
+  | [] => Ok []
+  | (lvl, short) :: rest =>
+      if Nat.ltb (length parent_tags) lvl then Exn HedFileError
+      else
+        let name := firstn lvl parent_tags ++ [short] in
+        let* names := rebuild_names name rest in
+        Ok (name :: names)
+  end.
+
+(* what a merged save hands to the MediaWiki writer for a tag: its level (= depth) and its short name *)
+Definition wiki_tag_line (name : tname) : nat * nat := (length name - 1, last name 0).
+
+(* the written order is parents-first: every tag directly follows its parent or a node of its parent's subtree *)
+Fixpoint parents_first (previous : tname) (names : list tname) : Prop :=
+  match names with
+  | [] => True
+  | n :: rest =>
+      n <> [] /\ length n - 1 <= length previous /\ removelast n = firstn (length n - 1) previous
+      /\ parents_first n rest
+  end.
